@@ -22,6 +22,7 @@ TagCases(fmts, depths) ==
 
 GrpcCases == {[kind |-> "grpc", status |-> st] : st \in (0..17) \cup {99}}
 GrpcBad == {[kind |-> "grpcbad", what |-> w] : w \in {"unknown_method", "bad_payload"}}
+GrpcFail == {[kind |-> "grpcfail", what |-> w] : w \in {"refused", "timeout"}}
 Invalid == {[kind |-> "invalid"]}
 
 StepOuts == {Out("status", 200), Out("status", 404), Out("status", 500), Out("reset", 0), Out("truncated", 200)}
@@ -31,9 +32,9 @@ HttpScnCases(maxLen) == UNION {{[kind |-> "httpscn", name |-> "scn", steps |-> [
 GrpcScnCases(maxLen) == UNION {{[kind |-> "grpcscn", name |-> "gscn", steps |-> [k \in 1..n |-> [tag |-> Segs[k], status |-> f[k]]]] :
                                    f \in [1..n -> {0, 5, 13}]} : n \in 1..maxLen}
 
-SpaceQuick == HttpCases(200, 599) \cup TagCases({"uri", "json"}, 1..3) \cup GrpcCases \cup GrpcBad \cup Invalid
+SpaceQuick == HttpCases(200, 599) \cup TagCases({"uri", "json"}, 1..3) \cup GrpcCases \cup GrpcBad \cup GrpcFail \cup Invalid
               \cup HttpScnCases(2) \cup GrpcScnCases(2)
-SpaceBig   == HttpCases(200, 599) \cup TagCases({"uri", "json", "raw", "uripost"}, 1..5) \cup GrpcCases \cup GrpcBad \cup Invalid
+SpaceBig   == HttpCases(200, 599) \cup TagCases({"uri", "json", "raw", "uripost"}, 1..5) \cup GrpcCases \cup GrpcBad \cup GrpcFail \cup Invalid
               \cup HttpScnCases(3) \cup GrpcScnCases(3)
 
 \* the catalogue of the state machine: one or two of each kind that Expected() covers
